@@ -117,6 +117,12 @@ CHECKS = {
         "Stores of 0-12 entries are built by real cached calls (two functions, optional compression, zero-size entries), access times set explicitly (ties, increasing, spread), and reduce_size is called with limit triples including None, 0, exact fit (also spelled as K/M strings), fit-1 and ages between entries; survivors must meet every limit, be no older than any evicted entry, the eviction must be minimal, survivors must hit without executing and evicted entries recompute exactly once.",
         "No concurrent writer; age deadlines kept >= 60 s from any entry; ties may break either way; the store's own notion of entry size (sum of file sizes) is used.",
         "3/C18", "harness"),
+    "C19": (
+        "exploration",
+        "runtime round-trip / mmap / worker monitors on generated numpy arrays: exact dtype-shape-order-bytes oracles after dump/load, memmap type-file-alignment-content-write-through checks, task-side probes of arrays passed to loky / multiprocessing workers",
+        "Arrays over 31 dtypes (bool, ints, floats, complex, S, U, datetime64 / timedelta64 with units, structured with nested / sub-array / mixed-endian fields, object; both byte orders) x 10 shapes (0-d, empty, n-d) x 7 layouts (C, F, sliced, transposed, offset view, negative stride, broadcast) x subclasses (ndarray, np.matrix, two user subclasses), bare or inside containers with neighbour arrays, are (A) dumped and loaded under every compressor / level / protocol / target and compared for exact dtype (ensure_native_byte_order=False), shape, order flags and element bytes (default load: documented byte-order normalisation only); (B) loaded with mmap_mode r / r+ / c / w+ and checked for np.memmap type, file, 16-byte aligned offset and data pointer, the file bytes at that offset, contents, and write-through vs copy-on-write; (C) passed to loky and multiprocessing workers with max_nbytes in {None, size-1, size, size+1, '1K', 0}, plain and memmap-backed, the task reporting dtype, shape and a value digest.",
+        "numpy 2.5.3 from the offline wheelhouse. Arrays numpy pickles itself (user subclasses, small worker arguments) lose non-native byte order inside numpy: for them dtype is compared up to byte order. Aliasing between arrays is not asserted.",
+        "3/C19", "harness"),
     "C20": (
         "exploration",
         "reference-model monitor of the real resource-tracker process: seeded request scripts from 1-3 real client processes (loky ResourceTracker API on an inherited pipe), sentinel-based synchronisation after every request, disk state compared with a ref-count registry; clients exit or are SIGKILLed at seeded positions",
